@@ -64,7 +64,8 @@ def handleC03 : List String → Option String
     if !compiles e m then
       -- SetBPFFilter fails, the scan does not start: nothing can be reported
       return s!"CE\t{b2s (obs == "CE" && spec.all (·.isNone))}"
-    let outs := run scan {} frames
+    -- the filter sees the frame, the processor the bytes the ring holds of it
+    let outs := run scan {} (frames.map (captured (snaplen fn)))
     let modelStr := if frames.isEmpty then "-" else
       "|".intercalate ((List.zip frames outs).map (fun (f, o) => (if accepts e m f then "A;" else "D;") ++ outStr o))
     let obsL := if obs == "-" then [] else obs.splitOn "|"
@@ -79,6 +80,39 @@ def handleC03 : List String → Option String
             else (if a == "A" && p.startsWith "R:" then some p else none) == sp
           | _ => false)
     pure s!"{modelStr}\t{b2s verdict}"
+  | _ => none
+
+/-- sorted as Go's `sort.Strings` does (ASCII) -/
+def sortRecs (l : List String) : List String := (l.toArray.qsort (· < ·)).toList
+
+/-- end-to-end receive side (component e2ereply): per engine run the port ranges of that run and the frames put on
+    the wire while it ran; observed = the sorted multiset of records the real binary printed -/
+def handleC03e : List String → Option String
+  | [cmd, vpn, proccfg, fn, link, drops, subnet, batches, obs] => do
+    let cmd ← parseCmd cmd
+    let scan ← parseScan proccfg
+    let fn ← parseFn fn
+    let drops := drops == "1"
+    let m := if link == "raw" then LinkMode.rawIPv4 else LinkMode.ethernet
+    let vpn := vpn == "1"
+    let kind := Spec.Reply.kindOf cmd
+    let bs ← (if batches == "" then some [] else
+      (batches.splitOn ";").mapM (fun b => match b.splitOn "@" with
+        | [ports, framesHex] => do
+          let r ← parseRange subnet ports
+          let frames ← if framesHex == "" then some [] else (framesHex.splitOn ",").mapM unhex
+          pure (r, frames)
+        | _ => none))
+    let render (recs : List (Option Record)) : List String := recs.filterMap (fun o => o.map (fun x => outStr (.record x)))
+    let fmt (l : List String) : String := "OK " ++ "|".intercalate (sortRecs l)
+    if bs.any (fun (r, _) => !compiles (filterOf fn r) m) then
+      -- SetBPFFilter fails, the scan does not start
+      return s!"FAIL\t{b2s (obs.startsWith "FAIL")}"
+    -- every engine run opens a fresh socket and constructs a fresh processor
+    let model := bs.flatMap (fun (r, frames) => render (reportedAllWire drops (filterOf fn r) m (snaplen fn) scan {} frames))
+    let spec := bs.flatMap (fun (r, frames) => render (frames.map (Spec.Reply.replyRecord (scanName scan) kind r vpn)))
+    let ok := bs.all (fun (r, _) => Spec.Reply.RangeOK r)
+    pure s!"{fmt model}\t{b2s (!ok || obs == fmt spec)}"
   | _ => none
 
 end Driver
